@@ -407,8 +407,20 @@ func (s *Store) mergeSegStacks(footer *Footer, splicePoint int,
 			}
 		}
 
-		rv.childSegStacks[cName], _ =
+		var childBase *segmentStack
+		rv.childSegStacks[cName], childBase =
 			s.mergeSegStacks(childFooter, splicePoint, newStack)
+		if childBase != nil {
+			// The child's retained persisted segments, which a partial
+			// compaction resolves the child's merge operands against.
+			if rvBase == nil {
+				rvBase = &segmentStack{options: higher.options}
+			}
+			if rvBase.childSegStacks == nil {
+				rvBase.childSegStacks = make(map[string]*segmentStack)
+			}
+			rvBase.childSegStacks[cName] = childBase
+		}
 	}
 
 	return rv, rvBase
@@ -522,14 +534,14 @@ func (s *Store) writeSegments(newSS, base *segmentStack,
 			compactFooter.ChildFooters = make(map[string]*Footer)
 		}
 
-		// TODO: IMPORTANT: See MB-29664 - merge-operators, child
-		// collections, and partial/leveled compaction does not work
-		// correctly.  You need to use full compaction if you're using
-		// merge-operators with child collections.  The fix will be to
-		// compute and provide the right childSegStackBase to the
-		// recursive writeSegments() calls.
-		//
+		// See MB-29664 - with partial/leveled compaction the merge
+		// operands of a child collection are resolved against the
+		// child's retained persisted segments, which mergeSegStacks()
+		// hands over as the child stacks of base.
 		var childSegStackBase *segmentStack
+		if base != nil {
+			childSegStackBase = base.childSegStacks[cName]
+		}
 
 		childFooter, err := s.writeSegments(childSegStack, childSegStackBase,
 			frefCompact, fileCompact, includeDeletes, syncAfterBytes)
